@@ -289,6 +289,7 @@ struct ShapeValue {
 #[derive(Debug, Clone, PartialEq)]
 #[allow(dead_code)]
 #[br(import {file_header: &ModelFileHeader})]
+#[bw(import {file_header: &ModelFileHeader})]
 #[brw(little)]
 pub struct ModelData {
     #[br(args { vertex_declaration_count: file_header.vertex_declaration_count })]
@@ -339,11 +340,12 @@ pub struct ModelData {
     shape_values: Vec<ShapeValue>,
 
     // TODO: try to unify these fields?
-    #[br(if(file_header.version <= 0x1000005))]
+    // only one of the two sizes is in the file, when writing too
+    #[brw(if(file_header.version <= 0x1000005))]
     submesh_bone_map_size: u32,
 
     // hehe, Dawntrail made this u16 instead of u32. fun?
-    #[br(if(file_header.version >= 0x1000006))]
+    #[brw(if(file_header.version >= 0x1000006))]
     submesh_bone_map_size_v2: u16,
 
     #[br(count = if file_header.version >= 0x1000006 { (submesh_bone_map_size_v2 / 2) as u32 } else { submesh_bone_map_size / 2 } )]
@@ -1008,7 +1010,12 @@ impl MDL {
             // write file header
             self.file_header.write(&mut cursor).ok()?;
 
-            self.model_data.write(&mut cursor).ok()?;
+            self.model_data
+                .write_args(
+                    &mut cursor,
+                    binrw::args! { file_header: &self.file_header },
+                )
+                .ok()?;
 
             for (l, lod) in self.lods.iter().enumerate() {
                 for part in lod.parts.iter() {
